@@ -14,6 +14,21 @@ import json
 
 import common
 
+MANIFEST = dict(
+    category="proof",
+    text="Machine-checked refinement proof (Coq): for every operation history, over any number of handles, the "
+         "Arc/VecDeque/view model of numbat/src/list.rs returns exactly what plain immutable sequences return, "
+         "never panics, and leaves every other handle's contents unchanged (C18_refines, C18_no_panic, "
+         "C18_others_unchanged, C18_reachable_inv; all closed under the global context). The model is tied to the "
+         "code by a per-step correspondence check on real NumbatList handles that also compares the internal "
+         "representation (sharing classes, views, strong counts, allocation lengths) through a hook.",
+    design_ref="DESIGN.md §6 C18",
+    note="Trusted: Coq kernel + vm_compute; the hand port of list.rs in coq/theories/ListM/Model.v (validated by the "
+         "correspondence on bounded-exhaustive and random histories, not proved against Rust); Arc::strong_count = "
+         "number of live handles; element equality reflexive; memory safety is Rust's.",
+    technique="Coq refinement proof (invariant + induction over histories) + model/implementation correspondence by vm_compute",
+)
+
 THEOREMS = ["C18_refines", "C18_no_panic", "C18_others_unchanged", "C18_reachable_inv"]
 
 
